@@ -137,7 +137,7 @@ BASELINE = dict(tier="Legendary", level=270, passive_skill_level=0, combat_order
                 link_count=13, artifact_level=40, propensity_level=100)
 
 
-def gen_unit(job, variant, pi, seed, n_lo, n_hi, kind):
+def gen_unit(job, variant, pi, seed, n_lo, n_hi, kind, burst_skills=3, burst_uses=3):
     import yaml
     rng = random.Random(f"C02:{seed}:{job}:{variant}:{pi}:{kind}")
     n = rng.randint(n_lo, n_hi)
@@ -148,7 +148,20 @@ def gen_unit(job, variant, pi, seed, n_lo, n_hi, kind):
     sweep = []
     for nme in names:
         sweep += [command_text(simlib.op("USE", nme)), command_text(simlib.op("RESOLVE", nme))]
-    lines = sweep + [command_text(c) for c in simlib.random_plan(rng, job, variant, n, max_elapse=6000.0)]
+    # skills that can be used again at once are used several times in a row (accumulators that only show after
+    # a few uses: stacks, the pseudo-random counters of archmagetc.CurrentField)
+    eng = simlib.make_engine(job, variant)
+    spam = []
+    for nme in names:
+        eng.exec(simlib.op("USE", nme))
+        eng.exec(simlib.op("RESOLVE", nme))
+        if any(v.name == nme and v.valid for v in eng.get_current_viewer()("validity")):
+            spam.append(nme)
+    burst = []
+    for nme in spam[:burst_skills]:
+        for _ in range(burst_uses):
+            burst += [command_text(simlib.op("USE", nme)), command_text(simlib.op("RESOLVE", nme))]
+    lines = sweep + burst + [command_text(c) for c in simlib.random_plan(rng, job, variant, n, max_elapse=6000.0)]
     if kind == "baseline":
         return {"id": f"baseline/{job}", "kind": "baseline", "job": job, "variant": variant, "lines": lines,
                 "provider": dict(BASELINE, jobtype=job)}
@@ -287,6 +300,10 @@ def same_failure(f, g):
     return f["unit"] == g["unit"]
 
 
+def units_job(cx, step):
+    return cx.units[step]["job"] if isinstance(step, str) else step["noise"]["job"]
+
+
 def shrink_seq(cx: Ctx, order, f, hashseed, budget_s):
     """smallest sequential order (fresh interpreter each trial) that still shows failure f.
     Stage A (parallel): the victim step alone, and every [other step, victim]; stage B: delta debugging."""
@@ -300,6 +317,9 @@ def shrink_seq(cx: Ctx, order, f, hashseed, budget_s):
     for s in prefix:
         if s not in distinct and s != victim:
             distinct.append(s)
+    def job_of(step):
+        return units_job(cx, step)
+    distinct.sort(key=lambda st: 0 if job_of(st) == job_of(victim) else 1)      # likeliest culprits first
     cands = [[victim]] + ([[victim, victim]] if victim in prefix else []) + [[s, victim] for s in distinct]
 
     def trial(o):
@@ -577,7 +597,8 @@ def main(ck: Check):
         plan_len = (20, 36)
     specs += [(job, 0, 0, "baseline") for job in base_jobs]
     units = {}
-    for args, u in pmap(gen_unit, [(j, v, pi, ck.seed, plan_len[0], plan_len[1], k) for j, v, pi, k in specs], 120):
+    for args, u in pmap(gen_unit, [(j, v, pi, ck.seed, plan_len[0], plan_len[1], k, 0 if quick else 8, 0 if quick else 5)
+                                      for j, v, pi, k in specs], 120):
         if args is None:
             raise TimeoutError(f"plan generation: {u}")
         units[u["id"]] = u
@@ -677,23 +698,25 @@ def main(ck: Check):
                           "over": rng.choice([{}, {"combat_orders_level": 2}, {"hexa_skill_level": 20}])}}
 
     orders = []
-    orders.append(("forward, first plan twice, all again at the end", [U[0], U[0]] + U[1:] + B + [U[0], U[-1]]))
+    orders.append(("forward, first plan twice and once more at the end", [U[0], U[0]] + U[1:] + [U[0]]))
     rev = []
-    for u in reversed(U):
-        rev += [u, noise_step()]
-    orders.append(("reverse with other builds in between", B + rev))
+    for i, u in enumerate(reversed(U)):
+        rev += [u] + ([noise_step()] if i % 3 == 1 else [])
+    orders.append(("reverse with other builds in between", rev))
     n_shuffles = 1 if quick else 4
     for k in range(n_shuffles):
-        sh = U + [rng.choice(U) for _ in range(3)]
+        sh = U + [rng.choice(U) for _ in range(2)]
         rng.shuffle(sh)
         o = []
         for u in sh:
             o.append(u)
-            if rng.random() < 0.3:
+            if rng.random() < 0.15:
                 o.append(noise_step())
-        if k % 2 == 1:
-            o = B[:1] + o
         orders.append((f"shuffled #{k} with repeats and other builds", o))
+    for b in B:
+        same_job = [u for u in U if units[u]["job"] == units[b]["job"]]
+        orders.append((f"gear-based environment ({b}) before, between and after the plans of its job",
+                       [b] + same_job[:1] + [b] + same_job[1:3]))
     stage2 = []
     for i, (label, o) in enumerate(orders):
         stage2.append((f"order|{i}", cx.job("seq", o, order=o), ref_seed if i % 2 == 0 else other_seeds[0], 600))
@@ -714,8 +737,8 @@ def main(ck: Check):
     n_rounds = 2 if quick else 20
     for k in range(n_rounds):
         kind = "whole" if k % 2 == 0 else "split"
-        nthreads = (8 if kind == "whole" else 4) if quick else rng.randint(4, 16)
-        pool_units = list(U) if quick else rng.sample(U, 16) + (B[:1] if k % 7 == 0 else [])
+        nthreads = (6 if kind == "whole" else 4) if quick else rng.randint(4, 16)
+        pool_units = rng.sample(U, 10) if quick else rng.sample(U, 16) + (B[:1] if k % 7 == 0 else [])
         o = pool_units + [rng.choice(pool_units) for _ in range(2)]
         rng.shuffle(o)
         rnd = {"kind": kind, "order": o, "threads": nthreads, "frames": kind == "whole" and k % 4 == 0,
@@ -726,17 +749,19 @@ def main(ck: Check):
                        rng.choice([ref_seed] + other_seeds), 900))
     outs = {}
     budget2 = ck.budget_s - (time.time() - t_start) - (25 if quick else 120)
-    for args, out in pmap(sub, stage2, max(30.0, budget2)):
+    for args, out in pmap(sub, stage2, max(75.0, budget2)):
         if args is None:
             raise TimeoutError(f"batch runs: {out}")
         if "crash" in out:
             raise RuntimeError(f"runner crashed in {out['tag']}: {out['crash']}")
         outs[out["tag"]] = out
+    sub_walls = {t: o.get("sub_wall") for t, o in sorted(outs.items())}
+    sub_walls["alone(max)"] = max(o.get("sub_wall", 0) for o in alone.values())
     shrink_budget = 40.0 if quick else 180.0
     shrinks = 0
+    todo = []
     for tag, out in sorted(outs.items()):
         kind, k = tag.split("|")
-        k = int(k)
         account(out, {"order": "one interpreter, sequential order", "interleave": "engines interleaved command by command",
                       "threads": "thread pool"}[kind])
         for r in out["results"]:
@@ -744,8 +769,14 @@ def main(ck: Check):
         if kind == "threads":
             constructions.append(out["repository_constructions"])
         fs = cx.failures_of(out)
-        if not fs:
-            continue
+        if fs:
+            todo.append((0 if any(g["type"] == "digest" for g in fs) else 1, tag, fs))
+    # runs with a difference in the results first (they get the shrinking budget), then runs where only shared
+    # data changed
+    for _prio, tag, fs in sorted(todo, key=lambda x: (x[0], x[1])):
+        kind, k = tag.split("|")
+        k = int(k)
+        out = outs[tag]
         hs = next(a[2] for a in stage2 if a[0] == tag)
         f = pick(fs)
         if kind == "order":
@@ -855,9 +886,11 @@ def main(ck: Check):
         "repository_constructions_per_thread_round": constructions,
         "thread_rounds_where_sessions_raced_on_the_empty_global": sum(1 for c in constructions if c > 1),
         "hash_seeds": [ref_seed] + other_seeds,
+        "subprocess_wall_s": sub_walls,
         "frame_snapshots": frame_checks,
         "frame_cells": len(cell_names),
-        "frame_cells_sample": cell_names[:5] + [c for c in cell_names if c.startswith("repository")][:3],
+        "frame_cells_sample": [c for c in cell_names if not c.startswith("repository")][:6] +
+                              [c for c in cell_names if c.startswith("repository")][:3],
         "lazily_created_cells_seen": sorted(lazy_seen),
         "containers_shared_between_built_engines_and_repository": {"probes": aliased_probes, "shared": aliased_total},
         "static_inventory_counts": inv_classes,
